@@ -56,7 +56,7 @@ class ConvSim(WorldBase):
 
     @classmethod
     def gen_config(cls, prop, rng, tier):
-        return {"mode": rng.choice(["rand", "rand", "yaml", "yaml", "yaml"]), "max_events": 400,
+        return {"mode": rng.choice(["rand", "rand", "yaml", "yaml", "yaml"]), "max_events": 1500,
                 "explicit": rng.choice([0.0, 0.2, 0.5])}
 
     def __init__(self, prop, cfg, scratch):
@@ -93,8 +93,11 @@ class ConvSim(WorldBase):
             # every abort point of the preceding dump, then a clean dump over the torn file, then load
             for key, n in sorted(self.dump_events.items()):
                 pts = list(range(1, n + 1))
-                if n > 80:
-                    pts = sorted(set(pts[:15] + pts[-15:] + pts[::max(1, n // 50)]))
+                if n > 40:
+                    # write events in the middle of a dump are all alike (the buffered data is lost);
+                    # the flush / close events at the end are where a torn file is produced
+                    pts = sorted(set(pts[:4] + pts[-8:] + pts[::max(1, n // 12)]))
+                pts.sort(key=lambda k: -k)
                 for k in pts:
                     self.q.append(["dump", {"obj": key, "path": f"torn_{key}.yaml", "abort_at": k}])
                     self.q.append(["dump", {"obj": key, "path": f"torn_{key}.yaml"}])
